@@ -365,6 +365,12 @@ func direct(c *core.Ctx, b batchCase, r *core.Rand, panicIdx int) {
 	if b.supported != nil {
 		ex.SetSupportedProtocolVersions(append([]kmip.ProtocolVersion{}, b.supported...)...)
 	}
+	if panicIdx%4 == 1 {
+		// the library's own logging middleware, as an application would install it while debugging
+		marshal := [](func(any) []byte){nil, ttlv.MarshalXML, ttlv.MarshalJSON}[panicIdx/4%3]
+		ex.Use(kmipserver.DebugMiddleware(io.Discard, marshal))
+		c.Count("requests_through_debug_middleware", 1)
+	}
 	req := buildRequest(b, "direct", r)
 	var resp *kmip.ResponseMessage
 	if p, pv, st := core.Guard(func() { resp = ex.HandleRequest(context.Background(), req) }); p {
@@ -425,7 +431,7 @@ func Spec() *core.Spec {
 			"x continuation option {unset, Continue, Stop, Undo} x {supported, unsupported} version x {matching, mismatching} batch count x with/without item ids, through BatchExecutor.HandleRequest with instrumented handlers; " +
 			"seeded random batches of up to 40 items; a sample sent through a real server connection so ids and counts cross the wire. Compared with a 30-line reference model (item count/order/echo, counts, version, success/failure, handler trace). " +
 			"all 31 supported-version sets x 11 request versions (inside, in gaps, outside); sequences of 3-8 requests on ONE executor (versions 1.0-1.4, built-in Discover Versions with client sub-lists, handlers cancelling the request context mid-batch); distinct = distinct (batch description, path) combinations",
-		Required: []string{"wire_pipelined_groups", "count_mismatch.fewer-announced", "sequence_requests", "sequence_requests.context-cancelled-mid-batch", "versions.supported", "versions.unsupported.in-a-gap", "batches.direct", "batches.wire", "rejected_requests"},
+		Required: []string{"wire_pipelined_groups", "requests_through_debug_middleware", "count_mismatch.fewer-announced", "sequence_requests", "sequence_requests.context-cancelled-mid-batch", "versions.supported", "versions.unsupported.in-a-gap", "batches.direct", "batches.wire", "rejected_requests"},
 		Families: []core.Family{
 			{Name: "exhaustive", Exhaustive: true, N: func(tier string) int {
 				if tier == core.Thorough {
